@@ -86,4 +86,110 @@ def rule_prov(ctx) -> RuleResult:
     return res
 
 
-RULES = [rule_cache, rule_prov]
+def rule_match(ctx) -> RuleResult:
+    import ast
+
+    from ..model import AnalysisError, unparse
+    from .c17 import _flow_names
+
+    res = RuleResult(
+        "C18.MATCH",
+        "C18",
+        "(a) a function that searches positions in an argsort-permuted copy of an array (np.searchsorted(a[perm], ..)) maps "
+        "the positions it returns back through that permutation (perm[...]): returned indices refer to the caller's array, "
+        "not to the sorted copy; (b) an added interval is matched to an existing one only when BOTH its from and its to "
+        "coincide: the collocation test reduces over the (from, to) axis with an all-components reduction "
+        "(norm / max / all), never min / any",
+        floor=2,
+    )
+    p = ctx.p
+    n_a = 0
+    for fn in p.all_functions():
+        calls = [c for c in ast.walk(fn.node) if isinstance(c, ast.Call) and unparse(c.func) in ("np.searchsorted", "numpy.searchsorted") and c.args]
+        if not calls:
+            continue
+        defs = _flow_names(fn)
+
+        def argsorts(e, seen=()):
+            """argsort calls in e, through local names"""
+            out = []
+            for x in ast.walk(e):
+                if isinstance(x, ast.Call) and unparse(x.func) in ("np.argsort", "numpy.argsort"):
+                    out.append(x)
+                if isinstance(x, ast.Name) and x.id in defs and x.id not in seen:
+                    for d in defs[x.id]:
+                        out += argsorts(d, seen + (x.id,))
+            return out
+
+        for c in calls:
+            hay = c.args[0]
+            # permuted: hay contains X[<argsort-derived>]
+            perm_subs = [x for x in ast.walk(hay) if isinstance(x, ast.Subscript) and argsorts(x.slice)]
+            via_names = []
+            for x in ast.walk(hay):
+                if isinstance(x, ast.Name) and x.id in defs:
+                    for d in defs[x.id]:
+                        via_names += [y for y in ast.walk(d) if isinstance(y, ast.Subscript) and argsorts(y.slice)]
+                        via_names += [y for y in ast.walk(d) if isinstance(y, ast.Call) and unparse(y.func) in ("np.sort", "sorted")]
+            if not (perm_subs or via_names):
+                continue
+            n_a += 1
+            # returned value must pass through <perm>[...] with perm argsort-derived
+            perm_names = {nm for nm, ds in defs.items() if any(isinstance(d, ast.Call) and unparse(d.func) in ("np.argsort", "numpy.argsort") for d in ds)}
+
+            def mapped_back(e, seen=()):
+                for x in ast.walk(e):
+                    if isinstance(x, ast.Subscript) and isinstance(x.value, ast.Name) and x.value.id in perm_names:
+                        return True
+                    if isinstance(x, ast.Subscript) and isinstance(x.value, ast.Call) and unparse(x.value.func) in ("np.argsort", "numpy.argsort"):
+                        return True
+                    if isinstance(x, ast.Name) and x.id in defs and x.id not in seen and x.id not in perm_names:
+                        if any(mapped_back(d, seen + (x.id,)) for d in defs[x.id]):
+                            return True
+                return False
+
+            rets = [r for r in ast.walk(fn.node) if isinstance(r, ast.Return) and r.value is not None]
+            ok = bool(rets) and all(mapped_back(r.value) for r in rets)
+            res.inst(f"{fn.qualname}:{c.lineno} searchsorted in a permuted copy; returned indices mapped back through the permutation", nontrivial=True, ok=ok)
+            if not ok:
+                res.find(fn.cls.name if fn.cls else fn.module.short, fn.name, "positions found in the sorted copy are returned without mapping back through the argsort permutation",
+                         f"{fn.module.relpath}:{c.lineno}",
+                         "the returned indices address the sorted copy: for an input that is not already sorted, matches point at other elements "
+                         "(depth data are merged onto the wrong vertices)")
+    if n_a == 0:
+        raise AnalysisError("C18.MATCH: no searchsorted-in-permuted-copy site found (match_values moved?)")
+    # (b)
+    dh = p.cls("Drillhole")
+    vi = dh.methods.get("validate_interval_data")
+    if vi is None:
+        raise AnalysisError("anchor Drillhole.validate_interval_data not found")
+    ALL_RED = {"np.linalg.norm", "np.max", "np.amax", "np.all", "max"}
+    ANY_RED = {"np.min", "np.amin", "np.any", "min"}
+    cmps = [c for c in ast.walk(vi.node) if isinstance(c, ast.Compare) and any("collocation_distance" in unparse(x) for x in c.comparators)]
+    if not cmps:
+        raise AnalysisError("validate_interval_data: comparison against collocation_distance not found")
+    for c in cmps:
+        left = c.left
+        kind = None
+        for x in ast.walk(left):
+            if isinstance(x, ast.Call):
+                fnm = unparse(x.func)
+                meth = x.func.attr if isinstance(x.func, ast.Attribute) else None
+                on_np = isinstance(x.func, ast.Attribute) and unparse(x.func.value) in ("np", "numpy", "np.linalg")
+                if fnm in ALL_RED or (meth in ("max", "all") and not on_np):
+                    kind = kind or "all"
+                if fnm in ANY_RED or (meth in ("min", "any") and not on_np):
+                    kind = "any"
+        if kind is None:
+            raise AnalysisError(f"validate_interval_data:{c.lineno}: reduction over the (from, to) axis not recognised in `{unparse(left)[:60]}`")
+        ok = kind == "all" and isinstance(c.ops[0], (ast.Lt, ast.LtE))
+        res.inst(f"validate_interval_data:{c.lineno} interval match = {unparse(left)[:50]} < tolerance", nontrivial=True, ok=ok)
+        if not ok:
+            res.find("Drillhole", "validate_interval_data", f"an interval matches when ANY endpoint coincides ({unparse(left)[:50]})",
+                     f"{vi.module.relpath}:{c.lineno}",
+                     "an added interval sharing only its from (or only its to) with an existing one is treated as that interval: its values are "
+                     "attached to the wrong cell and no vertices are created for its other endpoint")
+    return res
+
+
+RULES = [rule_cache, rule_prov, rule_match]
